@@ -15,10 +15,16 @@ Import ListNotations.
 Local Open Scope string_scope.
 
 (* ------------------------------------------------------------------ lock kinds of the operations of one Go type *)
-Definition mkey := (string * string)%type.     (* (Go type, Go method) *)
+(* which row of the table an operation is governed by, EXPLICITLY: Go type, method, owner ("self" = the
+   receiver's own fields) and mutex.  (SyncedPool.Flush has rows for three mutexes and for the stores' locks.) *)
+Record mkey := mkK { k_type : string; k_method : string; k_owner : string; k_mutex : string }.
+Definition mkey_eqb (a b : mkey) : bool :=
+  String.eqb (k_type a) (k_type b) && String.eqb (k_method a) (k_method b) &&
+  String.eqb (k_owner a) (k_owner b) && String.eqb (k_mutex a) (k_mutex b).
+Definition row_mkey (r : lock_row) : mkey := mkK (r_type r) (r_method r) (r_owner r) (r_mutex r).
 Definition find_key (tbl : list lock_row) (k : mkey) : option lock_row :=
-  find (fun r => key_eqb (row_key r) k) tbl.   (* first row of the function: its own object comes first *)
-Definition keys_of (t : string) (ms : list string) : list mkey := map (pair t) ms.
+  find (fun r => mkey_eqb (row_mkey r) k) tbl.
+Definition keys_of (t mu : string) (ms : list string) : list mkey := map (fun m => mkK t m "self" mu) ms.
 
 Section TableKinds.
   Variable op : Type.
@@ -50,6 +56,17 @@ Section TableKinds.
     destruct (find_key tbl (mkey_of o)) as [r|]; [|discriminate].
     apply andb_true_iff in Hcheck. destruct Hcheck as [_ Hk].
     destruct (kind_of_row r); auto. discriminate.
+  Qed.
+
+  (* the row selected for an operation exists, satisfies the whole discipline ([method_ok]) and is live *)
+  Lemma tk_ok_row : forall o, exists r,
+    find_key tbl (mkey_of o) = Some r /\ method_ok r = true /\ r_quiescent r = false.
+  Proof.
+    intro o. unfold tk_check in Hcheck. rewrite forallb_forall in Hcheck.
+    specialize (Hcheck _ (names_complete o)).
+    destruct (find_key tbl (mkey_of o)) as [r|]; [|discriminate]. exists r. split; auto.
+    apply andb_true_iff in Hcheck. destruct Hcheck as [H _].
+    apply andb_true_iff in H. destruct H as [H1 H2]. apply negb_true_iff in H2. auto.
   Qed.
 
   Lemma tk_not_readonly_excl : forall o, readonly_m (mkey_of o) = false -> tk_kind o = KExcl.
@@ -167,9 +184,9 @@ Section WlruInstance.
   Definition w_readonly (m : string) : bool :=
     existsb (String.eqb m) ["Peek"; "Contains"; "GetOldest"; "Keys"; "Len"; "Weight"; "Total"].
 
-  Definition wkey (o : wop) : mkey := ("Cache", wname o).
-  Definition wkeys : list mkey := keys_of "Cache" wnames.
-  Definition wk_readonly (k : mkey) : bool := w_readonly (snd k).
+  Definition wkey (o : wop) : mkey := mkK "Cache" (wname o) "self" "lock".
+  Definition wkeys : list mkey := keys_of "Cache" "lock" wnames.
+  Definition wk_readonly (k : mkey) : bool := w_readonly (k_method k).
 
   Lemma wnames_complete : forall o, In (wkey o) wkeys.
   Proof. intros [[]|]; unfold wkey, wkeys, keys_of; simpl; tauto. Qed.
@@ -348,9 +365,9 @@ Definition sname (o : sop) : string :=
 Definition snames : list string := ["TryAcquire"; "Release"; "Processing"; "Available"; "Terminate"; "Acquire"].
 Definition s_readonly (m : string) : bool := existsb (String.eqb m) ["Processing"; "Available"].
 
-Definition skey (o : sop) : mkey := ("DataSemaphore", sname o).
-Definition skeys : list mkey := keys_of "DataSemaphore" snames.
-Definition sk_readonly (k : mkey) : bool := s_readonly (snd k).
+Definition skey (o : sop) : mkey := mkK "DataSemaphore" (sname o) "self" "mu".
+Definition skeys : list mkey := keys_of "DataSemaphore" "mu" snames.
+Definition sk_readonly (k : mkey) : bool := s_readonly (k_method k).
 
 Lemma snames_complete : forall o, In (skey o) skeys.
 Proof. intros []; unfold skey, skeys, keys_of; simpl; tauto. Qed.
@@ -456,21 +473,25 @@ Qed.
 (* the sequential object is model/LinObjects.fl_step (overlay, reads through it, batch, merged iterator, flush) *)
 Definition fkey (o : fop) : mkey :=
   match o with
-  | FPut _ _ => ("Flushable", "Put") | FDelete _ => ("Flushable", "Delete")
-  | FGet _ => ("flushableReader", "Get") | FHas _ => ("flushableReader", "Has")
-  | FFlush => ("Flushable", "Flush") | FDropNotFlushed => ("Flushable", "DropNotFlushed")
-  | FPairs => ("Flushable", "NotFlushedPairs") | FSizeEst => ("Flushable", "NotFlushedSizeEst")
-  | FSnap => ("Flushable", "GetSnapshot") | FBatch _ => ("cacheBatch", "Write")
-  | FStat => ("Flushable", "Stat")
+  | FPut _ _ => (mkK "Flushable" "Put" "self" "lock") | FDelete _ => (mkK "Flushable" "Delete" "self" "lock")
+  | FGet _ => (mkK "flushableReader" "Get" "self" "lock") | FHas _ => (mkK "flushableReader" "Has" "self" "lock")
+  | FFlush => (mkK "Flushable" "Flush" "self" "lock") | FDropNotFlushed => (mkK "Flushable" "DropNotFlushed" "self" "lock")
+  | FPairs => (mkK "Flushable" "NotFlushedPairs" "self" "lock") | FSizeEst => (mkK "Flushable" "NotFlushedSizeEst" "self" "lock")
+  | FSnap => (mkK "Flushable" "GetSnapshot" "self" "lock") | FBatch _ => (mkK "cacheBatch" "Write" "other:flushable" "lock")
+  | FStat => (mkK "Flushable" "Stat" "self" "lock")
+  | FCompact => (mkK "Flushable" "Compact" "self" "lock")
+  | FInitDb => (mkK "LazyFlushable" "InitUnderlyingDb" "self" "lock")
   end.
 Definition fkeys : list mkey :=
-  [("Flushable", "Put"); ("Flushable", "Delete"); ("flushableReader", "Get"); ("flushableReader", "Has");
-   ("Flushable", "Flush"); ("Flushable", "DropNotFlushed"); ("Flushable", "NotFlushedPairs");
-   ("Flushable", "NotFlushedSizeEst"); ("Flushable", "GetSnapshot"); ("cacheBatch", "Write"); ("Flushable", "Stat")].
+  [(mkK "Flushable" "Put" "self" "lock"); (mkK "Flushable" "Delete" "self" "lock"); (mkK "flushableReader" "Get" "self" "lock"); (mkK "flushableReader" "Has" "self" "lock");
+   (mkK "Flushable" "Flush" "self" "lock"); (mkK "Flushable" "DropNotFlushed" "self" "lock"); (mkK "Flushable" "NotFlushedPairs" "self" "lock");
+   (mkK "Flushable" "NotFlushedSizeEst" "self" "lock"); (mkK "Flushable" "GetSnapshot" "self" "lock"); (mkK "cacheBatch" "Write" "other:flushable" "lock"); (mkK "Flushable" "Stat" "self" "lock");
+   (mkK "Flushable" "Compact" "self" "lock"); (mkK "LazyFlushable" "InitUnderlyingDb" "self" "lock")].
 Definition fk_readonly (k : mkey) : bool :=
-  existsb (key_eqb k)
-    [("flushableReader", "Get"); ("flushableReader", "Has"); ("Flushable", "NotFlushedPairs");
-     ("Flushable", "NotFlushedSizeEst"); ("Flushable", "GetSnapshot"); ("Flushable", "Stat")].
+  existsb (mkey_eqb k)
+    [(mkK "flushableReader" "Get" "self" "lock"); (mkK "flushableReader" "Has" "self" "lock"); (mkK "Flushable" "NotFlushedPairs" "self" "lock");
+     (mkK "Flushable" "NotFlushedSizeEst" "self" "lock"); (mkK "Flushable" "GetSnapshot" "self" "lock"); (mkK "Flushable" "Stat" "self" "lock");
+     (mkK "Flushable" "Compact" "self" "lock")].
 
 Lemma fkeys_complete : forall o, In (fkey o) fkeys.
 Proof. intros []; simpl; tauto. Qed.
@@ -518,15 +539,15 @@ Definition lop_pop (o : lop) : pop :=
   end.
 Definition lkey (o : lop) : mkey :=
   match o with
-  | LFlush _ => ("SyncedPool", "Flush") | LSize => ("SyncedPool", "NotFlushedSizeEst")
-  | LNames => ("SyncedPool", "Names") | LOpen _ => ("SyncedPool", "OpenDB")
-  | LUnder _ => ("SyncedPool", "GetUnderlying") | LInit _ => ("SyncedPool", "Initialize")
+  | LFlush _ => (mkK "SyncedPool" "Flush" "self" "Mutex") | LSize => (mkK "SyncedPool" "NotFlushedSizeEst" "self" "Mutex")
+  | LNames => (mkK "SyncedPool" "Names" "self" "Mutex") | LOpen _ => (mkK "SyncedPool" "OpenDB" "self" "Mutex")
+  | LUnder _ => (mkK "SyncedPool" "GetUnderlying" "self" "Mutex") | LInit _ => (mkK "SyncedPool" "Initialize" "self" "Mutex")
   end.
 Definition lkeys : list mkey :=
-  [("SyncedPool", "Flush"); ("SyncedPool", "NotFlushedSizeEst"); ("SyncedPool", "Names"); ("SyncedPool", "OpenDB");
-   ("SyncedPool", "GetUnderlying"); ("SyncedPool", "Initialize")].
+  [(mkK "SyncedPool" "Flush" "self" "Mutex"); (mkK "SyncedPool" "NotFlushedSizeEst" "self" "Mutex"); (mkK "SyncedPool" "Names" "self" "Mutex"); (mkK "SyncedPool" "OpenDB" "self" "Mutex");
+   (mkK "SyncedPool" "GetUnderlying" "self" "Mutex"); (mkK "SyncedPool" "Initialize" "self" "Mutex")].
 Definition lk_readonly (k : mkey) : bool :=
-  existsb (key_eqb k) [("SyncedPool", "NotFlushedSizeEst"); ("SyncedPool", "Names")].
+  existsb (mkey_eqb k) [(mkK "SyncedPool" "NotFlushedSizeEst" "self" "Mutex"); (mkK "SyncedPool" "Names" "self" "Mutex")].
 
 Lemma lkeys_complete : forall o, In (lkey o) lkeys.
 Proof. intros []; simpl; tauto. Qed.
